@@ -185,6 +185,40 @@ theorem C08_vacuum_zero (alt : ℝ) (temp : Option ℝ) (a : Atmo ℝ) (ha : Vac
       subst hr
       norm_num
 
+/-- **C08_vacuum_stays_zero** (full): assigning a humidity to a vacuum — the only mutator an atmosphere has — leaves its
+    density ratio untouched, so it is still exactly zero at every altitude; on an ordinary atmosphere the same
+    assignment recomputes the density from the station values. -/
+theorem C08_vacuum_stays_zero (a b : Atmo ℝ) (h : ℝ) :
+    (a.setHumidity true h = .ok b → b.densityRatio = a.densityRatio ∧
+        (a.densityRatio = 0 → ∀ z res, b.densityMachAt z = some res → res.1 = 0)) ∧
+    (a.setHumidity false h = .ok b → b.densityRatio = airDensity a.t0 a.p0 b.humidity / 1.225 ∧
+        b.t0 = a.t0 ∧ b.p0 = a.p0 ∧ b.a0 = a.a0 ∧ b.mach = a.mach) := by
+  constructor
+  · intro hb
+    unfold Atmo.setHumidity at hb
+    cases hn : normHumidity h with
+    | error e => simp [hn] at hb
+    | ok v =>
+      simp only [hn, if_true, Except.ok.injEq] at hb
+      subst hb
+      refine ⟨rfl, ?_⟩
+      intro h0 z res hr
+      unfold Atmo.densityMachAt at hr
+      simp only at hr
+      split_ifs at hr <;>
+      · simp only [Option.some.injEq] at hr
+        subst hr
+        simp [h0]
+  · intro hb
+    unfold Atmo.setHumidity at hb
+    cases hn : normHumidity h with
+    | error e => simp [hn] at hb
+    | ok v =>
+      simp only [hn, Bool.false_eq_true, if_false, Except.ok.injEq] at hb
+      subst hb
+      refine ⟨?_, rfl, rfl, rfl, rfl⟩
+      simp only [cStandardDensityMetric]
+
 /-- **C08_humidity** (full): humidity outside 0–100 is rejected; inside, percent and fraction mean the same. -/
 theorem C08_humidity (h : ℝ) :
     (h < 0 ∨ 100 < h → normHumidity h = .error .humidity) ∧
